@@ -455,7 +455,7 @@ func c12ClientSide(c *fw.Ctx, cs c12Case) {
 	r := rand.New(rand.NewSource(cs.Seed))
 	sk, ck := keys.Get("b", 2048), keys.Get("a", 2048)
 	so := refpeer.ServerOpts{FirstSeq: cs.FirstSeq}
-	cfg := &uasc.Config{SecurityPolicyURI: ua.SecurityPolicyURINone, SecurityMode: ua.MessageSecurityModeNone, Lifetime: 3600000, RequestTimeout: 4 * time.Second}
+	cfg := &uasc.Config{SecurityPolicyURI: ua.SecurityPolicyURINone, SecurityMode: ua.MessageSecurityModeNone, Lifetime: 3600000, RequestTimeout: 10 * time.Minute}
 	if cs.Mode != refpeer.ModeNone {
 		so.Policy, so.Mode, so.Key, so.Cert = refpeer.PolicyByURI(refpeer.URIBasic256Sha256), cs.Mode, sk.Key, sk.Cert
 		cfg.SecurityPolicyURI, cfg.SecurityMode = refpeer.URIBasic256Sha256, ua.MessageSecurityMode(cs.Mode)
@@ -508,6 +508,8 @@ func c12ClientSide(c *fw.Ctx, cs c12Case) {
 		err   error
 	}
 	results := make(chan res, len(msgs))
+	reqCtx, reqCancel := context.WithCancel(context.Background()) // no deadline: see the collection loop below
+	defer reqCancel()
 	for _, m := range msgs {
 		m := m
 		go func() {
@@ -515,7 +517,7 @@ func c12ClientSide(c *fw.Ctx, cs c12Case) {
 			out.nonce = m.nonce
 			req := &ua.ReadRequest{NodesToRead: []*ua.ReadValueID{{NodeID: ua.NewStringNodeID(1, m.nonce), AttributeID: ua.AttributeIDValue, DataEncoding: &ua.QualifiedName{}}}}
 			if pn := fw.Catch(func() {
-				out.err = sc.SendRequest(ctx, req, nil, func(v ua.Response) error {
+				out.err = sc.SendRequest(reqCtx, req, nil, func(v ua.Response) error {
 					out.body, _ = refpeer.EncodeBody(v)
 					return nil
 				})
@@ -528,7 +530,7 @@ func c12ClientSide(c *fw.Ctx, cs c12Case) {
 	var conn2 *refpeer.SrvConn
 	select {
 	case conn2 = <-all:
-	case <-time.After(10 * time.Second):
+	case <-time.After(30 * time.Second):
 		c.Inconclusive("the reference server did not see all requests")
 		return
 	}
@@ -549,9 +551,29 @@ func c12ClientSide(c *fw.Ctx, cs c12Case) {
 	for _, m := range msgs {
 		byNonce[m.nonce] = m
 	}
+	// The calls run with a request timeout that never fires by itself: how long the channel may take to deliver what
+	// was sent is measured in heartbeats of this process since the last delivery (load can delay the verdict, not cause
+	// it); a call that is still waiting then counts as timed out, the response was lost inside the channel.
 	var got []res
-	for range msgs {
-		got = append(got, <-results)
+	answered := map[string]bool{}
+	beats := fw.Heartbeats()
+collect:
+	for len(got) < len(msgs) {
+		select {
+		case g := <-results:
+			got = append(got, g)
+			answered[g.nonce] = true
+			beats = fw.Heartbeats()
+		case <-time.After(time.Millisecond):
+			if fw.Heartbeats()-beats > 6000 {
+				break collect
+			}
+		}
+	}
+	for _, m := range msgs {
+		if !answered[m.nonce] {
+			got = append(got, res{nonce: m.nonce, err: ua.StatusBadTimeout})
+		}
 	}
 	c12Judge(c, cs, msgs, func(yield func(uint32, []byte, error)) {
 		for _, g := range got {
